@@ -42,7 +42,7 @@ def gen_cases(tier, seed):
     yield {'k': 'e2e-all'}
     for i in range(0, len(W3), 5):
         yield {'k': 'e2e-groups', 'from': i}
-    for i in range(40 if tier == 'quick' else 60000):
+    for i in range(40 if tier == 'quick' else 15000):
         yield {'k': 'unicode', 's': seed * 1000003 + i}
 
 
